@@ -58,6 +58,10 @@ def expr(e):
         if len(e.ops) == 1 and isinstance(e.ops[0], (ast.In, ast.NotIn)):
             neg = 'true' if isinstance(e.ops[0], ast.NotIn) else 'false'
             return '(EIn %s %s %s)' % (neg, expr(e.left), expr(e.comparators[0]))
+        if len(e.ops) == 1 and isinstance(e.ops[0], (ast.Is, ast.IsNot)) \
+                and isinstance(e.comparators[0], ast.Constant) and e.comparators[0].value is None:
+            # `x is None` / `x is not None`: equality with None in the value domain of Py.v
+            return '(ECmp %s [(%s, (EConst VNone))])' % (expr(e.left), 'Eq' if isinstance(e.ops[0], ast.Is) else 'NotEq')
         if not all(type(o) in CMP for o in e.ops):
             raise Unsupported(ast.dump(e)[:200])
         rest = '; '.join('(%s, %s)' % (CMP[type(o)], expr(c)) for o, c in zip(e.ops, e.comparators))
@@ -99,7 +103,59 @@ def expr(e):
             and len(e.args) >= 2 and not e.keywords:
         k = 'EMaxGen' if e.func.id == 'max' else 'EMinGen'
         return '(%s (EVar "_x") "_x" (ETuple [%s]) None)' % (k, '; '.join(expr(x) for x in e.args))
+    if isinstance(e, ast.Call):
+        return call(e)
     raise Unsupported(ast.dump(e)[:200])
+
+
+# name -> (parameter names, {parameter: default expression text}) of the functions that may be called: the other
+# translation targets (filled by generate()); methods are registered as ".name" with self first
+CALLABLE = {}
+CALLS_SEEN = []
+
+
+def call(e):
+    if isinstance(e.func, ast.Name):
+        name, args = e.func.id, list(e.args)
+    elif isinstance(e.func, ast.Attribute):
+        name, args = '.' + e.func.attr, [e.func.value] + list(e.args)
+    else:
+        raise Unsupported(ast.dump(e)[:200])
+    if name not in CALLABLE:
+        raise Unsupported('call of %s (not a translation target)' % name)
+    params, defaults = CALLABLE[name]
+    if any(isinstance(a, ast.Starred) for a in args) or any(k.arg is None for k in e.keywords):
+        raise Unsupported('star arguments in call of %s' % name)
+    if len(args) > len(params):
+        raise Unsupported('too many arguments in call of %s' % name)
+    given = {p: expr(a) for p, a in zip(params, args)}
+    for k in e.keywords:
+        if k.arg not in params or k.arg in given:
+            raise Unsupported('keyword %s in call of %s' % (k.arg, name))
+        given[k.arg] = expr(k.value)
+    out = []
+    for p_ in params:
+        if p_ in given:
+            out.append(given[p_])
+        elif p_ in defaults:
+            out.append(defaults[p_])
+        else:
+            raise Unsupported('missing argument %s in call of %s' % (p_, name))
+    CALLS_SEEN.append(name)
+    return '(ECall %s [%s])' % (q(name), '; '.join(out))
+
+
+def signature(fn):
+    a = fn.args
+    if a.vararg or a.kwarg or a.kwonlyargs or a.posonlyargs:
+        raise Unsupported('signature of %s' % fn.name)
+    params = [x.arg for x in a.args]
+    defaults = {}
+    for p_, d in zip(params[len(params) - len(a.defaults):], a.defaults):
+        if not isinstance(d, ast.Constant):
+            raise Unsupported('default of %s in %s' % (p_, fn.name))
+        defaults[p_] = '(EConst %s)' % const(d.value)
+    return params, defaults
 
 
 def target(t):
@@ -115,6 +171,10 @@ def stmt(s):
         return 'SPass'  # docstring
     if isinstance(s, ast.Pass):
         return 'SPass'
+    if isinstance(s, ast.Assert) and s.msg is None:
+        return '(SAssert %s)' % expr(s.test)
+    if isinstance(s, ast.Assign) and len(s.targets) == 1 and isinstance(s.targets[0], ast.Tuple):
+        return '(SUnpack [%s] %s)' % ('; '.join(target(t) for t in s.targets[0].elts), expr(s.value))
     if isinstance(s, ast.Assign):
         if len(s.targets) == 1 and isinstance(s.targets[0], ast.Name) and isinstance(s.value, ast.GeneratorExp):
             return 'SPass'  # inlined at its (single) use by InlineGen
@@ -274,6 +334,9 @@ TARGETS = {
         ('fun', 'avoid_page_break', 'avoid_page_break', {}),
         ('fun', 'force_page_break', 'force_page_break', {}),
     ]),
+    'GenCss': ('weasyprint/css/__init__.py', [
+        ('fun', 'declaration_precedence', 'declaration_precedence', {}),
+    ]),
     'GenCssUtils': ('weasyprint/css/utils.py', [
         ('qtable', 'LENGTHS_TO_PIXELS', 'lengths_to_pixels', {}),
     ]),
@@ -284,6 +347,22 @@ def generate(repo, out_dir, only=None):
     """Returns (written_files, errors) ; errors: list of (target, message)."""
     errors, written = [], []
     os.makedirs(out_dir, exist_ok=True)
+    # first pass: the signatures of all function targets (what a translated body may call)
+    CALLABLE.clear()
+    for fname, (src, targets) in TARGETS.items():
+        try:
+            tree0 = ast.parse(open(os.path.join(repo, src)).read())
+        except Exception:
+            continue
+        for kind, pyname, coqname, extra in targets:
+            if kind != 'fun' or extra.get('slice_from'):
+                continue
+            try:
+                fn0 = find_function(tree0, pyname)
+                key = ('.' + pyname.split('.')[-1]) if '.' in pyname else pyname
+                CALLABLE[extra.get('call_as', key)] = signature(fn0)
+            except Unsupported:
+                pass
     for fname, (src, targets) in TARGETS.items():
         if only and fname not in only:
             continue
@@ -295,6 +374,7 @@ def generate(repo, out_dir, only=None):
             errors.append((fname, 'cannot parse %s: %s' % (src, exc)))
             continue
         parts = [HEADER % src]
+        table = []
         for kind, pyname, coqname, extra in targets:
             try:
                 if kind == 'fun':
@@ -302,7 +382,13 @@ def generate(repo, out_dir, only=None):
                     if extra.get('calls'):
                         parts.append(translate_wrapper(fn, coqname))
                     else:
+                        del CALLS_SEEN[:]
                         parts.append(translate_function(fn, coqname, extra.get('slice_from'), extra.get('params')))
+                        for callee in sorted(set(CALLS_SEEN)):
+                            check_binding(tree, fn, callee)
+                        if not extra.get('slice_from'):
+                            key = ('.' + pyname.split('.')[-1]) if '.' in pyname else pyname
+                            table.append('(%s, (%s_args, %s_body))' % (q(extra.get('call_as', key)), coqname, coqname))
                 elif kind == 'qtable':
                     parts.append(q_table(tree, source, pyname, coqname))
                 else:
@@ -310,6 +396,8 @@ def generate(repo, out_dir, only=None):
             except Unsupported as exc:
                 errors.append(('%s:%s' % (fname, pyname), str(exc)))
                 parts.append('(* UNSUPPORTED %s: %s *)\n' % (pyname, str(exc).replace('*)', '* )')))
+        parts.append('Definition %s_table : list (string * (list string * list stmt)) := [%s].\n' % (
+            fname, '; '.join(table)))
         text = '\n'.join(parts)
         dest = os.path.join(out_dir, fname + '.v')
         old = open(dest).read() if os.path.exists(dest) else None
@@ -317,6 +405,25 @@ def generate(repo, out_dir, only=None):
             open(dest, 'w').write(text)
             written.append(dest)
     return written, errors
+
+
+def check_binding(tree, fn, callee):
+    """the called name must denote the translation target: a module-level function of the same file or a name
+    imported with `from ... import name`, and not rebound inside the calling function; methods (".name") are
+    resolved by name only (recorded in the trusted base)"""
+    if callee.startswith('.'):
+        return
+    for n in ast.walk(fn):
+        if isinstance(n, ast.Name) and isinstance(n.ctx, ast.Store) and n.id == callee:
+            raise Unsupported('%s is rebound inside %s' % (callee, fn.name))
+        if isinstance(n, ast.arg) and n.arg == callee:
+            raise Unsupported('%s is a parameter of %s' % (callee, fn.name))
+    for n in tree.body:
+        if isinstance(n, ast.FunctionDef) and n.name == callee:
+            return
+        if isinstance(n, ast.ImportFrom) and any((a.asname or a.name) == callee and a.name == callee for a in n.names):
+            return
+    raise Unsupported('%s is neither defined nor imported in this module' % callee)
 
 
 def translate_wrapper(fn, name):
